@@ -2,6 +2,7 @@ import AasVerif.Lemmas.PyEmit
 import AasVerif.Lemmas.PyParen
 import AasVerif.Lemmas.PyRules
 import AasVerif.Lemmas.SdkVerify
+import AasVerif.Lemmas.SdkExact
 /-!
 # C08 — Generated Python verification implements the invariants exactly
 
@@ -152,5 +153,23 @@ theorem verify_instance_unfold (m : MM) (ρ : Env) (oid : Nat) (cn : Text) (fiel
       VRes.seq (verifyInvs ρ (.inst oid cn fields) c.invs)
         (VRes.seqAll (c.props.map (fun p => verifyField m ρ p fields))) := by
   simp [verify, verifyInst, hc]
+
+open AasVerif.Sdk in
+/-- **verify_exact.** When verification of an instance does not raise, `(d, p)` is reported
+exactly when the value reached at path `p` — a nested class instance or a value typed by a
+constrained primitive (`targetsInst` enumerates them in the order of the emitted code, list
+items with their index) — falsifies one of the stacked invariants of its class / constrained
+primitive whose description is `d` (verbatim). -/
+theorem verify_exact (m : MM) (ρ : Env) (v : Val) (h : (verify m ρ v).raised = none)
+    (d : Text) (p : Path) :
+    (d, p) ∈ (verify m ρ v).errors ↔
+      ∃ t ∈ targetsInst m v, t.path = p ∧ ∃ inv ∈ t.invs, inv.description = d ∧ Falsified ρ t.self inv :=
+  verify_exact_targets m ρ v h d p
+
+open AasVerif.Sdk in
+/-- … and as lists: the errors are the reports of the targets, in order. -/
+theorem verify_errors_in_order (m : MM) (ρ : Env) (v : Val) (h : (verify m ρ v).raised = none) :
+    (verify m ρ v).errors = allErrors ρ (targetsInst m v) :=
+  inst_errors m ρ v h
 
 end AasVerif.Props.C08
